@@ -172,7 +172,7 @@ def run(ctx: core.Ctx) -> core.Report:
                 "ms, offers / stop-offers / reboot evidence for any subset before, at (both orders) and after the scheduled rounds, "
                 "TTL 1-2 s offers that expire again between rounds, stop / restart of the protocol; every FindService message on "
                 "the wire judged for time, bound and content; every step compared with the Lean model")
-    stateful.run_scenarios(ctx, rep, make, oracle, ctx.n(80, 1500), "c13")
+    stateful.run_scenarios(ctx, rep, make, oracle, ctx.n(200, 3000), "c13")
     return rep
 
 
